@@ -98,6 +98,12 @@ Fixpoint managed (t : tree) : bool :=
   end.
 Lemma managed_not_unm : forall o, managed o = true -> is_unm o = false.
 Proof. intros [z c|i z|k l] H; try reflexivity. discriminate. Qed.
+Fixpoint managed_no_unm (o : tree) : managed o = true -> has_unm o = false.
+Proof.
+  destruct o as [z c|i z|k l]; intros H; [reflexivity|discriminate|].
+  cbn [managed has_unm] in *. induction l as [|x r IH]; [reflexivity|]. cbn [forallb existsb] in *. apply andb_true_iff in H. destruct H as [Hx Hr].
+  rewrite (managed_no_unm x Hx). cbn [orb]. apply IH. exact Hr.
+Qed.
 
 Lemma value_assign_fix : forall F o n, managed o = true -> f_fix F = true -> eval_r (value_assign F o n) = n.
 Proof.
